@@ -69,6 +69,10 @@ FnProgs == {
     NCall(NVar("merge"), <<NArray(<<NObject(<< Pair(NStr(ka), NObject(<< Pair(NStr(kb), NNum(IntV(9))) >>)) >>), O>>)>>),
     NCall(NVar("merge"), <<NArray(<<NObject(<< Pair(NStr(kc), O) >>), NObject(<< Pair(NStr(kc), NObject(<< Pair(NStr(<<122>>), NNum(IntV(9))) >>)) >>)>>)>>),
     NCall(NVar("merge"), <<NArray(<<O, O>>)>>),
+    \* three and more objects of growing size: the last occurrence of a name wins
+    NCall(NVar("merge"), <<NArray(<<NObject(<< Pair(NStr(ka), NNum(IntV(7))) >>), NObject(<< Pair(NStr(ka), NNum(IntV(8))) >>), NObject(<< Pair(NStr(kb), NNum(IntV(1))), Pair(NStr(kc), NNum(IntV(2))) >>)>>)>>),
+    NCall(NVar("merge"), <<NArray(<<NObject(<< Pair(NStr(ka), NNum(IntV(7))) >>), O, NObject(<< Pair(NStr(ka), NNum(IntV(8))) >>), NObject(<< Pair(NStr(kb), NNum(IntV(1))), Pair(NStr(kc), NNum(IntV(2))), Pair(NStr(<<122>>), NNum(IntV(3))) >>)>>)>>),
+    NCall(NVar("merge"), <<NArray(<<O, NObject(<< Pair(NStr(kb), NNum(IntV(7))) >>), O, NObject(<< Pair(NStr(ka), NNum(IntV(9))), Pair(NStr(kb), NNum(IntV(9))), Pair(NStr(kc), NNum(IntV(9))), Pair(NStr(<<122>>), NNum(IntV(9))) >>), NObject(<< Pair(NStr(kb), NNum(IntV(5))) >>)>>)>>),
     \* arrays of objects, with empty objects and non-objects among them
     NCall(NVar("spread"), <<NArray(<<O, NObject(<<>>), O>>)>>), NCall(NVar("spread"), <<NArray(<<NObject(<<>>), O>>)>>), NCall(NVar("spread"), <<NArray(<<NObject(<<>>)>>)>>),
     NCall(NVar("count"), <<NCall(NVar("spread"), <<NArray(<<NObject(<<>>), O, NObject(<<>>)>>)>>)>>),
